@@ -37,6 +37,57 @@ fn chars_at(text: &str, r: &std::ops::Range<usize>) -> Option<String> {
     }
 }
 
+/// The faulty reference sits in the direct line itself: the diagnostic names no program line and its range
+/// covers exactly the missing number (or the unmatched keyword) in the listed text of what was typed.
+fn direct_fault_case(rng: &mut Rng, ctx: &mut Ctx) {
+    let with_program = rng.coin();
+    let mut s = typed(&if with_program { vec!["10 PRINT \"P\"".to_string(), "20 END".to_string()] } else { vec![] });
+    s.quantum = *rng.pick(&[1usize, 2, 3, 5000, 5000]);
+    let missing = *rng.pick(&[0u32, 5, 15, 777, 9999, 65529]);
+    let pre = *rng.pick(&["", "A=1:", "PRINT \"é→\";:", "?\"x\":", "Z$=\"ü\"+\"ß\":"]);
+    let (tail, expect, code): (String, String, &str) = match rng.usize(9) {
+        0 => (format!("GOTO {}", missing), missing.to_string(), "UNDEFINED LINE"),
+        1 => (format!("GOSUB {}", missing), missing.to_string(), "UNDEFINED LINE"),
+        2 => (format!("IF 1 THEN {}", missing), missing.to_string(), "UNDEFINED LINE"),
+        3 => (format!("IF 0 THEN PRINT 1 ELSE {}", missing), missing.to_string(), "UNDEFINED LINE"),
+        4 => (format!("ON 1 GOTO {},{}", if with_program { "10" } else { "4" }, missing), missing.to_string(), "UNDEFINED LINE"),
+        5 => (format!("RESTORE {}", missing), missing.to_string(), "UNDEFINED LINE"),
+        6 => (format!("RUN {}", missing), missing.to_string(), "UNDEFINED LINE"),
+        7 => ("K=1:WEND".to_string(), "WEND".to_string(), "WEND WITHOUT WHILE"),
+        _ => ("WHILE K<3:K=K+1".to_string(), "WHILE".to_string(), "WHILE WITHOUT WEND"),
+    };
+    if with_program && (missing == 10 || missing == 20) {
+        return;
+    }
+    let src = format!("{}{}", pre, tail);
+    let text = format!("{}{}\n(execute({}) slices)", if with_program { "10 PRINT \"P\"\n20 END\n" } else { "" }, src, s.quantum);
+    mon::journal(&text);
+    let listed = basic::lang::Line::new(&src).to_string();
+    let (st, evs) = run(&mut s, &src);
+    ctx.eval(&text, true);
+    ctx.count("direct_line_faults");
+    let errors: Vec<(String, Option<u16>, std::ops::Range<usize>)> =
+        evs.iter().filter_map(|e| if let Ev::Error(d, l, c) = e { Some((d.clone(), *l, c.clone())) } else { None }).collect();
+    let hit = errors.iter().find(|(d, l, col)| error_name(d) == code && l.is_none() && chars_at(&listed, col).as_deref() == Some(expect.as_str()));
+    let ok = hit.is_some();
+    if st != Stop::Stopped || !ok {
+        ctx.violation(
+            "range-wrong",
+            &format!("diag:direct-line:{}", code.split(' ').next().unwrap_or("")),
+            &format!("{:?} (listed {:?}) must report {} without a line number and with a range covering exactly {:?}; got {:?} -> {:?}", src, listed, code, expect, errors, hit.and_then(|(_, _, c)| chars_at(&listed, c))),
+            &text,
+        );
+        return;
+    }
+    // the program in memory is untouched by the refused direct line
+    if with_program {
+        let (_, ev2) = run(&mut s, "RUN");
+        if !ev2.iter().any(|e| matches!(e, Ev::Print(p) if p.contains('P'))) || ev2.iter().any(|e| matches!(e, Ev::Error(..))) {
+            ctx.violation("direct-blocked", "diag:direct-line:program-hurt", &format!("after the refused direct line, RUN gave {:?}", ev2), &format!("{}\nRUN", text));
+        }
+    }
+}
+
 impl Prop for C19 {
     fn cases(&self, tier: Tier) -> u64 {
         match tier {
@@ -57,6 +108,9 @@ impl Prop for C19 {
     }
 
     fn run_case(&mut self, _idx: u64, rng: &mut Rng, ctx: &mut Ctx) {
+        if _idx % 16 == 3 {
+            return direct_fault_case(rng, ctx);
+        }
         let o = Opts { data: rng.coin(), func: rng.chance(1, 4), tron: false, stop: true, max_lines: 24, input: false, frac: rng.coin(), strings: rng.coin(), arrays: rng.coin() };
         let mut p = gen::generate(rng, o);
         p.number(if rng.chance(1, 6) { 0 } else { rng.range(1, 60) as u16 }, *rng.pick(&[2u16, 5, 10]));
